@@ -12,7 +12,7 @@
 
 namespace vs { namespace thr {
 
-enum {ST_RUNNABLE = 0, ST_BL_MUTEX, ST_BL_COND, ST_BL_JOIN, ST_BL_POLL, ST_BL_SLEEP, ST_FINISHED, ST_BL_ALL};
+enum {ST_RUNNABLE = 0, ST_BL_MUTEX, ST_BL_COND, ST_BL_JOIN, ST_BL_POLL, ST_BL_SLEEP, ST_FINISHED, ST_BL_ALL, ST_BL_PRED};
 
 struct SchedConfig
 {
@@ -35,6 +35,7 @@ void End();                                          // uninstalls the hooks (al
 void Spawn(const std::function<void()> & fn);        // starts a harness caller thread; returns once it is registered and parked
 void WaitForAll();                                   // the calling thread yields until every other registered thread has finished
 void Yield();                                        // a harness-inserted preemption point
+void WaitUntil(const std::function<bool()> & pred);  // the calling thread is blocked until pred() holds (evaluated by the scheduler; must be side-effect free)
 int  Self();                                         // ordinal of the calling thread (registration order), -1 if unregistered
 uint64_t Now();                                      // simulated clock (microseconds)
 const SchedStats & Stats();
